@@ -9,7 +9,7 @@ EXTENDS Integers, Sequences, FiniteSets, TLC
 
 VARIABLES
   cfg,          \* configuration record, constant during a behaviour
-  calls,        \* call id -> [g, msgs, returned, result, errs, seq, entered, afterClose]
+  calls,        \* call id -> [g, msgs, returned, result, errs, seq, entered, left, afterClose]
   chosen,       \* call id -> sequence of partitions the balancer returned so far
   log,          \* topic-partition -> sequence of message ids <<c, i>> (broker log)
   attempts,     \* journal of produce requests seen by the broker
@@ -150,7 +150,7 @@ C09w_AfterClose ==
 
 C09w_CloseMeansDrained ==
   closeState = "returned" =>
-     /\ \A c \in DOMAIN calls : calls[c].entered => calls[c].returned
+     /\ \A c \in DOMAIN calls : calls[c].entered => calls[c].left
      /\ \A c \in DOMAIN calls : Accepted(c) =>
            \A m \in MsgsOfCall(c) : Cardinality(CompletionsOf(m)) = 1
      /\ \A m \in AllMsgs : AttemptsOf(m) # {} => Cardinality(CompletionsOf(m)) = 1
